@@ -662,8 +662,8 @@ func runConcurrent(rng *rand.Rand) (*session, error) {
 // ---- workload E: dial data that ends one byte short, then the stream is half-closed ------------------
 //
 // Requests for a foreign address, one after the other; the client answers the DialDataRequest with data
-// that stops ONE BYTE short (of data, or of the last frame on the wire) - or exactly at the amount, as a
-// control - and half-closes. Every other request arrives over a stream whose FIN travels with the last
+// that stops short - by one byte of data or on the wire, or in the middle of the LAST frame (its header
+// promises the rest) - or exactly at the amount, as a control - and half-closes. Every other request arrives over a stream whose FIN travels with the last
 // bytes (the read that hands out the final bytes also returns io.EOF). Limits are out of the way.
 func runShortThenFin(rng *rand.Rand, extra sessionStats) (*session, error) {
 	big := 1 << 20
@@ -675,8 +675,8 @@ func runShortThenFin(rng *rand.Rand, extra sessionStats) (*session, error) {
 	}
 	for k := 0; k < 6; k++ {
 		pl := simpleRequest(rng, cfg, rng.IntN(len(cfg.Peers)), "foreign")
-		pl.DD = ddPlan{Shape: pick(rng, []string{"data", "data", "mixed"}), N: pick(rng, []int{4000, 1000, 8186, 100, 300}),
-			Stop: pick(rng, []string{"raw-short1", "raw-short1", "data-short1", "data-exact"}), End: "close",
+		pl.DD = ddPlan{Shape: pick(rng, []string{"data", "data", "mixed"}), N: pick(rng, []int{8186, 8186, 8000, 6000, 5000, 4097, 4096, 4000, 300}), // mostly above bufio's 4096: read straight from the stream
+			Stop: pick(rng, []string{"last-frame-half", "last-frame-half", "raw-short1", "data-short1", "data-exact"}), End: "close",
 			Frag: pick(rng, []int{0, 0, 0, -1, 4096}), Seed: rng.Uint64()}
 		s.launch(pl)
 		s.wg.Wait()
